@@ -19,9 +19,15 @@ META = {
     "level_note": "Trusted: Coq kernel, pygen, the hand-written Published.v and harness/refcodec.py as the statement of the published format, harness. zlib output bytes are "
                   "not pinned by the format (compared after inflation).",
     "technique": "Coq: reflexivity on regenerated tables vs hand-written published tables; ladder minimality by case analysis; differential run against an independent reference codec and peer",
-    "gen": ["consts", "brine", "channel", "protocol"],
+    "gen": ["consts", "brine", "channel", "protocol", "vinegar", "netref", "handlers", "calls"],
     "shapes": ["brine.*", "channel.send", "channel.recv", "protocol.Connection._send", "protocol.Connection._dispatch", "protocol.Connection._box",
-               "protocol.Connection._unbox", "protocol.Connection._async_request", "protocol.Connection._dispatch_request"],
+               "protocol.Connection._unbox", "protocol.Connection._async_request", "protocol.Connection._dispatch_request",
+               # what each handler expects as its argument tuple, what proxies put there, the exception record and the id pack:
+               # the published argument layouts are pinned as text (a self-consistent change of both ends would still be a different protocol)
+               "protocol.Connection._handle_*", "protocol.Connection._request_handlers", "protocol.Connection._box_exc", "protocol.Connection._unbox_exc",
+               "protocol.Connection._netref_factory", "protocol.Connection.sync_request", "protocol.Connection.async_request",
+               "vinegar.dump_after_fast_path", "vinegar.load", "netref._make_method", "netref.syncreq", "netref.asyncreq", "netref.BaseNetref.*",
+               "netref.class_factory", "handlers.lib.get_id_pack", "calls.*"],
     "models": ["brine"],
     "model_files": ["Brine"],
     "assumptions": ["harness/refcodec.py and coq/model/Published.v are the reading of 'the published 5.x format'"],
@@ -31,7 +37,7 @@ from rpyc.core import brine
 from rpyc.core.channel import Channel
 from rpyc.core.protocol import Connection
 import rpyc
-from harness.C04 import gen_value, canon, short, to_sx
+from harness.C04 import gen_value, canon, short, to_sx, has_surrogate, too_big_int
 from harness.C05 import FakeSock, SIZES, payload
 from rpyc.core.stream import SocketStream
 
@@ -48,15 +54,21 @@ def values_phase(ctx, n):
     r = ctx.rng
     for i in range(n):
         v = gen_value(r, r.choice([0, 1, 2, 3]), allow_other=False, big=(i % 40 == 0))
+        cv = canon(v)
+        ext = has_surrogate(v)          # text UTF-8 cannot express: outside the published value domain (the repaired tree extends the format, F1)
         try:
             real = brine.dump(v)
-        except Exception:
+        except Exception as e:
+            if not too_big_int(v) and not ext:
+                ctx.violation("published-value-not-encodable:" + cv[0], {"value_sx": C.sx_dumps(to_sx(v)), "repr": short(v, 200)}, observed=C.exc_enum(e),
+                              expected="the published encoding", what="a value of the published value domain is not encoded at all")
             continue
+        if ext:
+            ctx.count("value-outside-published-domain:lone-surrogate-text")
         try:
-            ref = R.enc(v)
+            ref = R.enc(v, ext_surrogates=ext)
         except Exception as e:
             ref = None
-        cv = canon(v)
         ctx.case(("val", cv), nontrivial=cv[0] not in ("none", "bool"), sample={"value": short(v, 80), "bytes": real[:20].hex()})
         ctx.count("value:" + cv[0])
         if ref != real:
@@ -64,7 +76,7 @@ def values_phase(ctx, n):
                           observed=real[:64].hex(), expected=(ref or b"")[:64].hex(), what="emitted bytes differ from the published (shortest-form) encoding")
         # every admissible alternative form must be accepted and mean the same
         for form in ("l1", "l4"):
-            alt = R.enc(v, form)
+            alt = R.enc(v, form, ext_surrogates=ext)
             try:
                 back = brine.load(alt)
                 ok = canon(back) == cv
